@@ -299,3 +299,20 @@ PLANS['C18'] = dict(
          'against inspect.signature.  Non-trivial: any of posonly/defaults/*args/kwonly/**kw present; distinct = distinct grid points.',
     assumptions=['inspect.signature is the reference'],
 )
+
+
+PLANS['C16'] = dict(
+    engine='components', level='exploration', jobs=lambda tier: both(tier, (4, 60), (8, 800)),
+    minimums=lambda t: {'steps': 4000, 'event_sequences_checked': 4000, 'replaced_utilities': 100,
+                        'noop_utility_registrations': 50, 'same_component_multi_name': 100, 'partial_removals': 50,
+                        'histories_with_unhashable_components': 20},
+    rule='Random histories over the eight register*/unregister* methods of Components (+ re-initialisation) with identical, '
+         'equal-but-distinct, hashable and unhashable components, the same component under several names / provided interfaces, '
+         'replacements, related provided interfaces; after every call: return value, the exact event sequence passed to '
+         'zope.interface.registry.notify (and what the events describe), the four registered*() listings against a ledger, '
+         'rebuildUtilityRegistryFromLocalCache() must report nothing to repair, and every query method against fresh '
+         'AdapterRegistry objects populated with exactly the ledger.  Non-trivial: a component registered under >= 2 names is '
+         'partially removed; distinct = distinct (hash mode, method sequence).',
+    assumptions=['hashability is a property of the equality class of a component',
+                 'events: where the documented per-call behaviour and the strictest per-registration reading differ both are accepted (DESIGN 3.16)'],
+)
